@@ -160,7 +160,9 @@ def run_translator(ck):
            "Definition US := Eval vm_compute in unaccounted_sites gen_handler_side_sites.\nPrint US.\n"
            "Definition UF := Eval vm_compute in filter (fun x => negb (existsb (String.eqb x) handler_side_functions_model)) gen_handler_side_functions.\nPrint UF.\n"
            "Definition FS := Eval vm_compute in map rt_handler (filter (fun r => negb (first_pre_is_service r)) gen_routes).\nPrint FS.\n"
-           "Definition NSI := Eval vm_compute in Z.of_nat (List.length gen_handler_side_sites).\nPrint NSI.\n")
+           "Definition NSI := Eval vm_compute in Z.of_nat (List.length gen_handler_side_sites).\nPrint NSI.\n"
+           "Definition IM := Eval vm_compute in filter (fun f => negb (prefix \"controller/\" f)) gen_unmarshal_importers.\nPrint IM.\n"
+           "Definition NST := Eval vm_compute in gen_unmarshal_sites_total.\nPrint NST.\n")
     ok, out = ck.coq_make(["model/IngestRobust.vo", "model/IngestPipe.vo", "gen/GenGoroutinesWriter.vo"])
     if not ok:
         ck.obligation("generated file compiles", False, out[-1500:])
@@ -221,7 +223,10 @@ def run_translator(ck):
     ck.obligation("only setters, resets and constructors of package unmarshal run on the handler goroutine", val("UF") == "[]",
                   "functions newly reachable outside the parser goroutine: " + val("UF"))
     ck.obligation("every route looks up its insert services before anything else", val("FS") == "[]", "routes: " + val("FS"))
+    ck.obligation("package unmarshal is imported by controller/ only (its code runs on the handler goroutine up to parserDoer.Do, else below Decode() in a goroutine with tamePanic)",
+                  val("IM") == "[]", "other importers: " + val("IM"))
     ck.extra["handler_side_panic_sites"] = val("NSI")
+    ck.extra["index_slice_assert_sites_in_package_unmarshal_(all;_those_not_handler-side_run_below_Decode_under_tamePanic)"] = val("NST")
     ck.extra["goroutines_in_writer"] = val("NG")
     ck.extra["ingest_paths_in_router"] = val("NP")
     ck.extra["untyped_error_sites"] = val("NS")
